@@ -163,3 +163,14 @@ package respondent
 //@   ensures cast("*socket", result).defCtx.closeQ != nil && !closed(cast("*socket", result).defCtx.closeQ)
 //@
 // ---- end generated default contracts ----
+// ---- generated current-queue contracts (from `govc sites -select`): the select uses the socket's queues as of the last time the lock was held ----
+//@ func (*context).RecvMsg
+//@   before select#1 assert selwaits(c.s.recvQ) && selwaits(c.s.sizeQ)
+//@
+//@ func (*pipe).receiver
+//@   before select#1 assert selwaits(p.s.sizeQ) && selsends(p.s.recvQ)
+//@
+//@ func (*pipe).sender
+//@   before select#1 assert selwaits(p.sendQ)
+//@
+// ---- end generated current-queue contracts ----
